@@ -41,7 +41,40 @@ func lmatch(doc, filter bson.D) matchRes {
 
 // ---------------------------------------------------------------- agreement
 
+// genC10FanSize: an array of sub-documents whose field b is a scalar, null,
+// missing or an array of 0-3 elements, queried with $size on the fanned-out
+// path (each sub-document's value counts on its own).
+func genC10FanSize(t *rapid.T) bson.D {
+	elems := bson.A{}
+	for i, n := 0, rapid.IntRange(1, 4).Draw(t, "fsElems"); i < n; i++ {
+		switch rapid.IntRange(0, 999).Draw(t, "fsKind") % 6 {
+		case 0:
+			elems = append(elems, bson.D{{Key: "b", Value: int32(7)}})
+		case 1:
+			elems = append(elems, bson.D{{Key: "c", Value: int32(1)}})
+		case 2:
+			elems = append(elems, bson.D{{Key: "b", Value: nil}})
+		case 3:
+			elems = append(elems, int32(5))
+		default:
+			arr := bson.A{}
+			for j, m := 0, rapid.IntRange(0, 999).Draw(t, "fsLen")%4; j < m; j++ {
+				arr = append(arr, int32(j+1))
+			}
+			elems = append(elems, bson.D{{Key: "b", Value: arr}})
+		}
+	}
+	cond := bson.D{{Key: "$size", Value: int32(rapid.IntRange(0, 999).Draw(t, "fsN") % 4)}}
+	if rapid.IntRange(0, 999).Draw(t, "fsNot")%3 == 1 {
+		cond = bson.D{{Key: "$not", Value: cond}}
+	}
+	return bson.D{{Key: "doc", Value: bson.D{{Key: "_id", Value: int32(1)}, {Key: "a", Value: elems}}}, {Key: "filter", Value: bson.D{{Key: "a.b", Value: cond}}}}
+}
+
 func genC10Agree(t *rapid.T) bson.D {
+	if rapid.IntRange(0, 999).Draw(t, "shape")%16 == 7 {
+		return genC10FanSize(t)
+	}
 	cfg := gen.Core
 	doc := cfg.Doc(2, 3).Draw(t, "doc")
 	var flt bson.D
